@@ -1,2 +1,74 @@
+"""C05.R3 / R4 — the order of object fields in every document is the order of their names.
+
+  R3  `SortedInternedStr` orders by the *text* of the names (`<str as Ord>::cmp` on `.value()`); the field list of an
+      object is collected from a `BTreeMap<SortedInternedStr, _>`, and every manifester takes its fields from that list
+  R4  the address-based order of `InternedStr` (derived `Ord` on the interned pointer) is not used by the evaluator,
+      data model or manifesters: two runs would order the same names differently
+"""
+from . import cg
+from .facts import callee_name
+
+SORTED = "rsjsonnet_lang::interner::SortedInternedStr"
+INTERNED = "rsjsonnet_lang::interner::InternedStr"
+OBJD = "rsjsonnet_lang::program::data::ObjectData"
+
+
 def run(F, rep):
-    pass
+    R = rep.rule("C05.R3", "object fields are listed in the order of their names: SortedInternedStr compares the names' text "
+                 "(<str as Ord>), get_fields_order collects from a BTreeMap keyed by it, and nothing in the evaluator, the data "
+                 "model or the manifesters orders names by the address-based Ord of InternedStr")
+    # (a) the comparison methods of SortedInternedStr compare `.value()` strings
+    n = 0
+    for m, want in (("core::cmp::Ord>::cmp", "<str as core::cmp::Ord>::cmp"),):
+        fn = F.fn("<%s as %s" % (SORTED, m))
+        calls = [callee_name(t) or "" for _, t in fn.body.calls()]
+        ok = want in calls and calls.count("<%s>::value" % INTERNED) == 2 and \
+            not any(c.startswith("<%s as core::cmp" % INTERNED) for c in calls)
+        n += 1
+        rep.ob(R, "SortedInternedStr|cmp", ok, {"calls": calls})
+        if not ok:
+            rep.violation(R, "SortedInternedStr|cmp", "SortedInternedStr::cmp does not compare the two names' text with <str as Ord>::cmp "
+                          "(calls: %s): field order would no longer be the order of the names" % calls, fn.loc)
+    for m in ("lt", "le", "gt", "ge", "partial_cmp"):
+        fn = F.fn_opt("<%s as core::cmp::PartialOrd>::%s" % (SORTED, m))
+        if fn is None:
+            continue
+        calls = [callee_name(t) or "" for _, t in fn.body.calls()]
+        ok = not any(c.startswith("<%s as core::cmp::Partial" % INTERNED) or c.startswith("<%s as core::cmp::Ord" % INTERNED) for c in calls) \
+            and (("<%s as core::cmp::Ord>::cmp" % SORTED) in calls or calls.count("<%s>::value" % INTERNED) == 2)
+        n += 1
+        rep.ob(R, "SortedInternedStr|%s" % m, ok)
+        if not ok:
+            rep.violation(R, "SortedInternedStr|%s" % m, "SortedInternedStr::%s does not go through the names' text (calls: %s)" % (m, calls), fn.loc)
+    # (b) get_fields_order builds its list from a BTreeMap<SortedInternedStr, _>
+    gfo = F.fn("<%s>::get_fields_order" % OBJD)
+    bodies = [gfo] + list(F.closures_of(gfo))
+    has_btree = any("BTreeMap<interner::SortedInternedStr" in g.body.local_ty(l)["s"] or
+                    "BTreeMap<rsjsonnet_lang::interner::SortedInternedStr" in g.body.local_ty(l)["s"]
+                    for g in bodies for l in range(len(g.body.locals)))
+    collects = any((callee_name(t) or "").endswith("Iterator::collect") or (callee_name(t) or "").endswith("Iterator>::collect")
+                   for g in bodies for _, t in g.body.calls())
+    hash_iter_collect = False
+    ok = has_btree and collects
+    n += 1
+    rep.ob(R, "get_fields_order|sorted-map", ok, {"btreemap_keyed_by_sorted_name": has_btree})
+    if not ok:
+        rep.violation(R, "get_fields_order|sorted-map", "get_fields_order no longer collects the field list from a "
+                      "BTreeMap<SortedInternedStr, _>: the list would follow hash or insertion order", gfo.loc)
+    # (c) address-based order of InternedStr unused outside the interner and derives
+    bad = []
+    for fn in F.fn_list:
+        if fn.crate.name != "rsjsonnet_lang" or fn.mac or "::interner::" in fn.q:
+            continue
+        if not ("::program::" in fn.q):
+            continue
+        for bb, t in fn.body.calls():
+            c = callee_name(t) or ""
+            if c.startswith("<%s as core::cmp::Ord" % INTERNED) or c.startswith("<%s as core::cmp::PartialOrd" % INTERNED):
+                bad.append((fn, c, fn.body.span(t["sp"])))
+    n += 1
+    rep.ob(R, "InternedStr|address-order-unused", not bad)
+    for fn, c, site in bad:
+        rep.violation(R, "%s|address-order" % fn.q, "%s orders interned names by %s (the address of the interned string): the "
+                      "order differs from run to run" % (fn.q, c), site)
+    rep.floor(R, n, 4, "ordering obligations")
